@@ -1,6 +1,7 @@
 import Flowjaxv.Model.FamiliesGenSem
 import Flowjaxv.Proofs.Families
 import Flowjaxv.Proofs.Vectorize
+import Flowjaxv.Proofs.FamiliesMvn
 /-!
 # The regenerated family constructors (`Gen/FamiliesGen.lean`) build what `Model/Families.lean` wires by hand
 
@@ -333,5 +334,86 @@ theorem gen_studentT_eq_model (df loc scale : NArr ℝ) {s : List Nat}
     (broadcastTo df s).data (broadcastTo loc s).data (broadcastTo scale s).data (by simp [broadcastTo_length]) (by simp [broadcastTo_length])
   rw [i1, i2]
   rfl
+
+
+/-! ### accessors -/
+
+/-- `softplus(softplus⁻¹ σ) = σ` entry by entry on positive entries -/
+theorem map_roundtrip {S : List ℝ} (h : ∀ σ ∈ S, 0 < σ) : S.map (fun x => Ctors.softplusUnwrap (Ctors.softplusRaw x)) = S := by
+  induction S with
+  | nil => rfl
+  | cons σ S ih =>
+    simp only [List.map_cons, List.cons.injEq]
+    exact ⟨Leaves.softplus_softplus_inv (h σ (by simp)), ih (fun x hx => h x (by simp [hx]))⟩
+
+/-- the unwrapped `BijectionReparam(v, SoftPlus())` is `v` again when every entry is positive -/
+theorem reparam_unwrap_roundtrip (v : NArr ℝ) (h : ∀ σ ∈ v.data, 0 < σ) :
+    Gen.Wr.BijectionReparam.unwrap (Gen.Wr.BijectionReparam.init v softPlus) = v := by
+  have hd := reparam_unwrap_data v
+  rw [map_roundtrip h] at hd
+  obtain ⟨sh, d⟩ := v
+  simp only [Gen.Wr.BijectionReparam.unwrap, Gen.Wr.BijectionReparam.init, softPlus] at hd ⊢
+  simp only [NArr.mk.injEq, true_and]
+  exact hd
+
+/-- the generated `scale` accessor on the generated constructor's object: entry by entry the hand model's `accScale` -/
+theorem scale_accessor_eq {B : Type} (b : B) (L S : NArr ℝ) (s : List Nat) :
+    (GenFam.locScaleScale ({ base_dist := b, bijection := { shape := s, loc := L, scale := Gen.Wr.BijectionReparam.init S softPlus } }
+        : Fw.Transformed B (AffineObj ℝ))).data
+      = S.data.map (fun σ => accScale (0 : ℝ) σ) := by
+  simp only [GenFam.locScaleScale, reparam_unwrap_data]
+  rfl
+
+/-- every entry of an unwrapped SoftPlus-reparameterised leaf is positive, whatever the raw (stored) array -/
+theorem unwrap_raw_pos (shape : List Nat) (raw : List ℝ) :
+    ∀ σ ∈ (Gen.Wr.BijectionReparam.unwrap (⟨⟨shape, raw⟩, softPlus⟩ : Reparam ℝ)).data, 0 < σ := by
+  intro σ hσ
+  simp only [Gen.Wr.BijectionReparam.unwrap, softPlus, List.mem_map] at hσ
+  obtain ⟨r, _, rfl⟩ := hσ
+  exact Leaves.softplus_pos r
+
+/-! ### `MultivariateNormal` -/
+
+/-- the generated constructor (Cholesky factor as the abstract parameter) builds the hand model `Families.mvn` -/
+theorem gen_mvn_eq_model (cholesky : List (List ℝ) → List (List ℝ)) (loc : List ℝ) (cov : List (List ℝ)) {n : ℕ}
+    (h : MvnPf.CholFactor n (cholesky cov)) (hl : loc.length = n) :
+    (GenFam.MultivariateNormal.init cholesky loc cov).map mvnDist = Families.mvn loc (cholesky cov) := by
+  simp only [GenFam.MultivariateNormal.init, triangularAffine, Families.mvn, MvnPf.mvnBijection_chol h hl, Option.bind_some,
+    Option.map_some, Option.some.injEq]
+  simp only [mvnDist, Transformed.toDistWith, StdBase.toDist, triShape, sprod, Nat.mul_one, stdNormalVec, BaseKind.logProb]
+
+theorem transpose_transpose {n : ℕ} {A : List (List ℝ)} (h : TriPf.Square n A) : transpose (transpose A) = A := by
+  obtain ⟨hlen, hrow⟩ := h
+  rcases Nat.eq_zero_or_pos n with rfl | hn
+  · have : A = [] := List.eq_nil_of_length_eq_zero hlen
+    subst this; rfl
+  have hhead : (A.headD []).length = n := by
+    cases A with
+    | nil => simp at hlen; omega
+    | cons r A => exact hrow r (by simp)
+  have ht : transpose A = (List.range n).map (fun j => A.map (fun row => row.getD j 0)) := by
+    simp only [transpose, hhead]
+  have hhead2 : ((transpose A).headD []).length = n := by
+    rw [ht]
+    cases n with
+    | zero => omega
+    | succ m => simp [List.range_succ_eq_map, hlen]
+  have htt : transpose (transpose A)
+      = (List.range ((transpose A).headD []).length).map (fun j => (transpose A).map (fun row => row.getD j 0)) := rfl
+  rw [htt, hhead2, ht]
+  apply List.ext_getElem
+  · simp [hlen]
+  · intro i h1 h2
+    have hi : i < n := by rw [← hlen]; exact h2
+    simp only [List.getElem_map, List.getElem_range, List.map_map]
+    apply List.ext_getElem
+    · simp [hrow _ (List.getElem_mem h2)]
+    · intro j g1 g2
+      have hj : j < n := by rw [← hrow _ (List.getElem_mem h2)]; exact g2
+      simp [List.getD_eq_getElem?_getD, hi, h2, g2]
+
+/-- `cholesky @ cholesky.T` of the generated `covariance` accessor is the hand model's `matMulT` on square matrices -/
+theorem matmul_transpose_eq {n : ℕ} {A : List (List ℝ)} (h : TriPf.Square n A) : matmul A (transpose A) = matMulT A := by
+  simp only [matmul, transpose_transpose h, matMulT]
 
 end FamGenPf
